@@ -8,6 +8,7 @@ import (
 	"sort"
 	"strings"
 	"sync"
+	"time"
 
 	"github.com/spf13/afero"
 
@@ -76,6 +77,8 @@ func c09RunImpl(c corr.Case) []string {
 				return "case"
 			case "snapshot":
 				return SnapLine(SnapshotMem(st.mem))
+			case "mutators-twin":
+				return c09MutatorsTwin(t[2], string(corr.UnHex(t[1])))
 			case "dirents-os":
 				return c09DirentsOS(string(corr.UnHex(t[1])), string(corr.UnHex(t[2])))
 			case "relroot-os":
@@ -276,6 +279,95 @@ func c09DirentsOS(root, dir string) string {
 	return "ok"
 }
 
+// c09MutatorsTwin: every mutating method through a BasePathFs rooted at D must be the same method of the source on
+// D/name — result class and resulting tree — also where the source refuses: on the operating system's file system
+// (an existing regular file where a directory is wanted, a missing parent, a populated directory) and over a source
+// that refuses everything (ReadOnlyFs). how ∈ os | ro.
+func c09MutatorsTwin(how, root string) string {
+	type op struct {
+		name string
+		run  func(fs afero.Fs, p string) error
+	}
+	ops := []op{
+		{"mkdir", func(fs afero.Fs, p string) error { return fs.Mkdir(p, 0o755) }},
+		{"mkdirall", func(fs afero.Fs, p string) error { return fs.MkdirAll(p, 0o755) }},
+		{"remove", func(fs afero.Fs, p string) error { return fs.Remove(p) }},
+		{"removeall", func(fs afero.Fs, p string) error { return fs.RemoveAll(p) }},
+		{"create", func(fs afero.Fs, p string) error {
+			f, err := fs.Create(p)
+			if err == nil {
+				f.Close()
+			}
+			return err
+		}},
+		{"openfile-excl", func(fs afero.Fs, p string) error {
+			f, err := fs.OpenFile(p, os.O_CREATE|os.O_EXCL|os.O_WRONLY, 0o644)
+			if err == nil {
+				f.Close()
+			}
+			return err
+		}},
+		{"chmod", func(fs afero.Fs, p string) error { return fs.Chmod(p, 0o700) }},
+		{"chtimes", func(fs afero.Fs, p string) error { return fs.Chtimes(p, time.Unix(5, 0), time.Unix(5, 0)) }},
+		{"rename-to-new", func(fs afero.Fs, p string) error { return fs.Rename(p, filepath.Join(filepath.Dir(p), "renamed")) }},
+	}
+	names := []string{"data.txt", "sub", "sub/inner.txt", "nope", "data.txt/below", "sub/new", "nope/deeper", "", "."}
+	for _, o := range ops {
+		for _, n := range names {
+			if o.name == "rename-to-new" && (n == "" || n == ".") {
+				continue // the new name would be computed from two different parents
+			}
+			var got, want, gotTree, wantTree string
+			run := func(through bool) (string, string) {
+				if how == "os" {
+					tmp, err := os.MkdirTemp("", "verif-c09mut-")
+					if err != nil {
+						return "setup:" + err.Error(), ""
+					}
+					defer os.RemoveAll(tmp)
+					D := filepath.Join(tmp, root)
+					os.MkdirAll(filepath.Join(D, "sub"), 0o755)
+					os.WriteFile(filepath.Join(D, "data.txt"), []byte("data"), 0o644)
+					os.WriteFile(filepath.Join(D, "sub", "inner.txt"), []byte("inner"), 0o644)
+					var err2 error
+					if through {
+						err2 = o.run(afero.NewBasePathFs(afero.NewOsFs(), D), n)
+					} else {
+						err2 = o.run(afero.NewOsFs(), filepath.Join(D, n))
+					}
+					var sb strings.Builder
+					filepath.Walk(D, func(p string, fi os.FileInfo, err error) error {
+						if err == nil {
+							fmt.Fprintf(&sb, "%s %v %v;", strings.TrimPrefix(p, D), fi.IsDir(), fi.Mode().Perm())
+						}
+						return nil
+					})
+					return ErrClass(err2), sb.String()
+				}
+				m := afero.NewMemMapFs()
+				D := filepath.Join("/", root)
+				m.MkdirAll(filepath.Join(D, "sub"), 0o755)
+				afero.WriteFile(m, filepath.Join(D, "data.txt"), []byte("data"), 0o644)
+				afero.WriteFile(m, filepath.Join(D, "sub", "inner.txt"), []byte("inner"), 0o644)
+				ro := afero.NewReadOnlyFs(m)
+				var err2 error
+				if through {
+					err2 = o.run(afero.NewBasePathFs(ro, D), n)
+				} else {
+					err2 = o.run(ro, filepath.Join(D, n))
+				}
+				return ErrClass(err2), SnapLine(SnapshotMem(m))
+			}
+			got, gotTree = run(true)
+			want, wantTree = run(false)
+			if got != want || gotTree != wantTree {
+				return fmt.Sprintf("fail: %s(%q) through BasePathFs over %s answers %s, the source with the root prepended answers %s (trees equal: %v)", o.name, n, how, got, want, gotTree == wantTree)
+			}
+		}
+	}
+	return "ok"
+}
+
 func c09Oracle(c corr.Case, impl []string) (string, int) {
 	var st *bpStack
 	var twin afero.Fs
@@ -286,7 +378,7 @@ func c09Oracle(c corr.Case, impl []string) (string, int) {
 			return "call panics: " + t[0], i
 		}
 		switch {
-		case t[0] == "symlink-os" || t[0] == "relroot-os" || t[0] == "dirents-os":
+		case t[0] == "symlink-os" || t[0] == "relroot-os" || t[0] == "dirents-os" || t[0] == "mutators-twin":
 			if strings.HasPrefix(impl[i], "fail") {
 				return impl[i], i
 			}
@@ -456,6 +548,8 @@ func c09SymlinkCases() []corr.Case {
 		}
 	}
 	cases = append(cases, corr.Case{Lines: ld})
+	// every mutator where the source refuses (operating system; a read-only source)
+	cases = append(cases, corr.Case{Lines: []string{c09Header([]string{"bp", "/base"}), "mutators-twin " + h("base") + " os", "mutators-twin " + h("base/deep") + " os", "mutators-twin " + h("base") + " ro", "mutators-twin " + h("/") + " ro"}})
 	return cases
 }
 
